@@ -90,6 +90,11 @@ fn child() -> i32 {
                         pairs.iter().map(|(r, o)| format!("{}:{}", r, o.map_or("-".to_string(), |x| x.to_string()))).collect::<Vec<_>>().join(","));
                 }
             }
+            if let Some(m) = a.macho.as_ref() {
+                let n = m.exports.len() + m.file.iter().map(|f| f.exports.len()).sum::<usize>();
+                let bytes: usize = m.exports.iter().map(|e| e.len()).sum();
+                if n > 0 { if !pe_line.is_empty() { pe_line.push('\n'); } pe_line.push_str(&format!("MX {} {} {}", idx, n, bytes)); }
+            }
             // PE overlay: sections' raw ranges, file length, reported overlay
             if let Some(pe) = a.pe.as_ref() {
                 if pe.is_pe.unwrap_or(false) {
@@ -133,7 +138,7 @@ fn child() -> i32 {
 }
 
 // ---------------------------------------------------------------- corpus
-struct Input { label: String, class: &'static str, data: Vec<u8> }
+struct Input { label: String, class: &'static str, data: Vec<u8>, max_exports: Option<usize> }
 
 fn le32(d: &[u8], o: usize) -> Option<u32> { d.get(o..o + 4).map(|b| u32::from_le_bytes([b[0], b[1], b[2], b[3]])) }
 fn le16(d: &[u8], o: usize) -> Option<u16> { d.get(o..o + 2).map(|b| u16::from_le_bytes([b[0], b[1]])) }
@@ -252,21 +257,80 @@ fn macho_symtab_bomb(n: usize, l: usize) -> Vec<u8> {
     d
 }
 
+/// Mach-O 64 with LC_DYLD_EXPORTS_TRIE whose trie is the given graph: node i
+/// has the edges (label, target node); every node is terminal.
+fn macho_trie(nodes: &[Vec<(Vec<u8>, usize)>]) -> Vec<u8> {
+    // fixed-size encoding: terminal info `02 00 00`, edge count, per edge label NUL + 3-byte uleb offset
+    let mut offs = vec![]; let mut o = 0usize;
+    for n in nodes { offs.push(o); o += 4 + n.iter().map(|(l, _)| l.len() + 4).sum::<usize>(); }
+    let mut t = vec![];
+    for n in nodes {
+        t.extend_from_slice(&[2, 0, 0, n.len() as u8]);
+        for (l, tgt) in n { t.extend_from_slice(l); t.push(0); let x = offs[*tgt]; t.push((x & 0x7f) as u8 | 0x80); t.push((x >> 7) as u8 & 0x7f | 0x80); t.push((x >> 14) as u8 & 0x7f); }
+    }
+    let mut d = vec![];
+    for v in [0xfeedfacfu32, 0x01000007, 3, 2, 1, 16, 0, 0] { d.extend_from_slice(&v.to_le_bytes()); }
+    for v in [0x80000033u32, 16, 48, t.len() as u32] { d.extend_from_slice(&v.to_le_bytes()); }
+    d.extend_from_slice(&t);
+    d
+}
+fn trie_inputs(rng: &mut Rng, big: bool) -> Vec<Input> {
+    let mut v = vec![];
+    let mut add = |label: String, nodes: Vec<Vec<(Vec<u8>, usize)>>| {
+        let n = nodes.len();
+        v.push(Input { label, class: "macho-export-trie-graph", data: macho_trie(&nodes), max_exports: Some(n) });
+    };
+    // a proper tree (baseline)
+    add("trie:tree:7".into(), (0..7).map(|i| if i < 3 { vec![(b"l".to_vec(), 2 * i + 1), (b"r".to_vec(), 2 * i + 2)] } else { vec![] }).collect());
+    // diamonds: both edges of node i point to node i + 1
+    for k in if big { vec![4usize, 12, 17, 22, 40] } else { vec![4usize, 17, 22] } {
+        for empty in [false, true] {
+            let lab = |c: u8| if empty { vec![] } else { vec![c] };
+            add(format!("trie:diamond:k={}:{}", k, if empty { "empty-labels" } else { "labels" }),
+                (0..=k).map(|i| if i < k { vec![(lab(b'a'), i + 1), (lab(b'b'), i + 1)] } else { vec![] }).collect());
+        }
+    }
+    // cycles: back edge to the root, to an earlier node, to itself; with and without labels
+    for (name, back) in [("root", 0usize), ("earlier", 2), ("self", usize::MAX)] {
+        for empty in [false, true] {
+            let n = 6usize;
+            let nodes = (0..n).map(|i| {
+                let mut e = vec![];
+                if i + 1 < n { e.push((b"n".to_vec(), i + 1)); }
+                if i >= 2 { e.push((if empty { vec![] } else { b"x".to_vec() }, if back == usize::MAX { i } else { back })); }
+                e
+            }).collect();
+            add(format!("trie:cycle:{}:{}", name, if empty { "empty-label" } else { "label" }), nodes);
+        }
+    }
+    // random graphs
+    for r in 0..(if big { 40 } else { 8 }) {
+        let n = 2 + rng.below(14) as usize;
+        let nodes = (0..n).map(|_| (0..rng.below(4)).map(|_| ((0..rng.below(3)).map(|_| b'a' + rng.below(3) as u8).collect(), rng.below(n as u64) as usize)).collect()).collect();
+        add(format!("trie:random:{}", r), nodes);
+    }
+    // a long chain: the accumulated prefix grows with the depth
+    for (n, l) in if big { vec![(100usize, 8usize), (2000, 4), (6000, 1), (40000, 1)] } else { vec![(100usize, 8usize), (2000, 4), (40000, 1)] } {
+        add(format!("trie:chain:n={},l={}", n, l), (0..n).map(|i| if i + 1 < n { vec![(vec![b'c'; l], i + 1)] } else { vec![] }).collect());
+    }
+    v
+}
+
 fn build_corpus(samples: &[(String, Vec<u8>)], rng: &mut Rng, n_trunc: usize, n_field: usize, bomb: &[usize], names: &[(usize, usize)]) -> Vec<Input> {
     let mut v: Vec<Input> = vec![];
-    v.push(Input { label: "empty".into(), class: "sample", data: vec![] });
+    v.push(Input { label: "empty".into(), class: "sample", data: vec![], max_exports: None });
     for (name, d) in samples {
-        v.push(Input { label: name.clone(), class: "sample", data: d.clone() });
+        v.push(Input { label: name.clone(), class: "sample", data: d.clone(), max_exports: None });
         // truncations at sampled boundaries (header region densely, then spread)
         for k in 0..n_trunc {
             let cut = if k % 2 == 0 { rng.below(d.len().min(1024) as u64 + 1) as usize } else { rng.below(d.len() as u64 + 1) as usize };
-            v.push(Input { label: format!("{}|trunc@{}", name, cut), class: "truncation", data: d[..cut].to_vec() });
+            v.push(Input { label: format!("{}|trunc@{}", name, cut), class: "truncation", data: d[..cut].to_vec(), max_exports: None });
         }
         let fo = field_offsets(d);
         for _ in 0..n_field {
             if fo.is_empty() { break; }
             let (o, w) = *rng.pick(&fo); let which = rng.below(8);
-            v.push(Input { label: format!("{}|field@{:#x}/{}={}", name, o, w, which), class: "field-mutation", data: mutate_field(d, o, w, which) });
+            v.push(Input { label: format!("{}|field@{:#x}/{}={}", name, o, w, which), class: "field-mutation", data: mutate_field(d, o, w, which), max_exports: None });
         }
     }
     // cross-format splices
@@ -276,7 +340,7 @@ fn build_corpus(samples: &[(String, Vec<u8>)], rng: &mut Rng, n_trunc: usize, n_
             let (an, a) = &samples[rng.below(ns as u64) as usize]; let (bn, b) = &samples[rng.below(ns as u64) as usize];
             let ca = rng.below(a.len().min(4096) as u64 + 1) as usize; let cb = rng.below(b.len() as u64 + 1) as usize;
             let mut d = a[..ca].to_vec(); d.extend_from_slice(&b[cb.min(b.len())..(cb + 65536).min(b.len())]);
-            v.push(Input { label: format!("{}[..{}]+{}[{}..]", an, ca, bn, cb), class: "splice", data: d });
+            v.push(Input { label: format!("{}[..{}]+{}[{}..]", an, ca, bn, cb), class: "splice", data: d, max_exports: None });
         }
     }
     // random bytes behind valid magics
@@ -289,15 +353,49 @@ fn build_corpus(samples: &[(String, Vec<u8>)], rng: &mut Rng, n_trunc: usize, n_
             let small = rng.chance(1, 2);
             d.extend((0..n).map(|_| if small { (rng.below(4) as u8) * (rng.below(3) as u8) } else { rng.below(256) as u8 }));
             if m.starts_with(b"MZ") && d.len() > 0x44 { d[0x3c..0x40].copy_from_slice(&0x40u32.to_le_bytes()); d[0x40..0x44].copy_from_slice(b"PE\0\0"); }
-            v.push(Input { label: format!("magic:{}+{}{}", hex(&m[..m.len().min(4)]), n, if small { "s" } else { "r" }), class: "magic+random", data: d });
+            v.push(Input { label: format!("magic:{}+{}{}", hex(&m[..m.len().min(4)]), n, if small { "s" } else { "r" }), class: "magic+random", data: d, max_exports: None });
         }
     }
-    for e in bomb { v.push(Input { label: format!("rsrc-self-reference:e={}", e), class: "self-referential-table", data: rsrc_bomb(*e) }); }
+    for e in bomb { v.push(Input { label: format!("rsrc-self-reference:e={}", e), class: "self-referential-table", data: rsrc_bomb(*e), max_exports: None }); }
+    v.extend(trie_inputs(rng, n_trunc > 32));
+    // OLE/CF: FAT entries rewired into cycles / joins
+    for (name, d) in samples.iter().filter(|(_, d)| d.starts_with(&[0xd0, 0xcf, 0x11, 0xe0]) && d.len() > 1024) {
+        let ssz = 1usize << (le16(d, 0x1e).unwrap_or(9).min(12) as usize);
+        if let Some(fat) = le32(d, 0x4c) {
+            let base = (fat as usize + 1).saturating_mul(ssz);
+            if base + ssz <= d.len() {
+                for k in 0..(n_field / 2).max(2) {
+                    let mut m = d.clone();
+                    for _ in 0..1 + rng.below(6) {
+                        let i = rng.below((ssz / 4) as u64) as usize;
+                        let tgt: u32 = match rng.below(4) { 0 => i as u32, 1 => 0, 2 => rng.below(i as u64 + 1) as u32, _ => rng.below((ssz / 4) as u64) as u32 };
+                        m[base + 4 * i..base + 4 * i + 4].copy_from_slice(&tgt.to_le_bytes());
+                    }
+                    v.push(Input { label: format!("{}|fat-rewire#{}", name, k), class: "graph-rewire", data: m, max_exports: None });
+                }
+            }
+        }
+    }
+    // ELF: cross references between sections (sh_link / sh_info) rewired
+    for (name, d) in samples.iter().filter(|(_, d)| d.starts_with(b"\x7fELF") && d.len() > 0x40 && d[4] == 2 && d[5] == 1) {
+        let shoff = u64::from_le_bytes(d[0x28..0x30].try_into().unwrap()) as usize;
+        let shnum = le16(d, 0x3c).unwrap_or(0) as usize;
+        if shnum == 0 || shoff.saturating_add(64 * shnum) > d.len() { continue; }
+        for k in 0..(n_field / 2).max(2) {
+            let mut m = d.clone();
+            for _ in 0..1 + rng.below(4) {
+                let s0 = rng.below(shnum as u64) as usize; let fld = if rng.chance(1, 2) { 0x28 } else { 0x2c };
+                let tgt = match rng.below(3) { 0 => s0 as u32, 1 => rng.below(shnum as u64) as u32, _ => shnum as u32 + rng.below(3) as u32 };
+                m[shoff + 64 * s0 + fld..shoff + 64 * s0 + fld + 4].copy_from_slice(&tgt.to_le_bytes());
+            }
+            v.push(Input { label: format!("{}|sh-link-rewire#{}", name, k), class: "graph-rewire", data: m, max_exports: None });
+        }
+    }
     // many table entries that share one long NUL-terminated name
     for (n, l) in names {
-        v.push(Input { label: format!("elf-symbol-names:n={},l={}", n, l), class: "elf-symbol-names", data: elf_names_bomb(*n, *l) });
-        v.push(Input { label: format!("macho-fixups-names:n={},l={}", n, l), class: "macho-fixups-names", data: macho_fixups_bomb(*n, *l) });
-        v.push(Input { label: format!("macho-symtab-names:n={},l={}", n, l), class: "macho-symtab-names", data: macho_symtab_bomb(*n, *l) });
+        v.push(Input { label: format!("elf-symbol-names:n={},l={}", n, l), class: "elf-symbol-names", data: elf_names_bomb(*n, *l), max_exports: None });
+        v.push(Input { label: format!("macho-fixups-names:n={},l={}", n, l), class: "macho-fixups-names", data: macho_fixups_bomb(*n, *l), max_exports: None });
+        v.push(Input { label: format!("macho-symtab-names:n={},l={}", n, l), class: "macho-symtab-names", data: macho_symtab_bomb(*n, *l), max_exports: None });
     }
     v
 }
@@ -327,7 +425,7 @@ fn run_one(kid: &mut Option<Kid>, idx: usize, data: &[u8], limit: Duration) -> R
         match k.rx.recv_timeout(left) {
             Ok(l) => {
                 if l.starts_with("PE ") { r.pe = Some(l); }
-                else if l.starts_with("OV ") || l.starts_with("ELF ") { r.extra.push(l); }
+                else if l.starts_with("OV ") || l.starts_with("ELF ") || l.starts_with("MX ") { r.extra.push(l); }
                 else if let Some(rest) = l.strip_prefix(&format!("END {} ", idx)) {
                     let f: Vec<&str> = rest.split(' ').collect();
                     if f[0] == "ok" { r.status = "ok".into(); r.same2 = f[1] == "1"; r.same3 = f[2] == "1"; r.scan_ok = f[3] == "1";
@@ -473,6 +571,13 @@ fn run(args: &[String]) -> i32 {
         }
         if sample_lines.len() < 3 && idx % 211 == 7 { sample_lines.push(replay.clone()); }
         shards.push(format!("KRun {} {} {}", coq_bool(r.status == "ok"), coq_bool(det || r.status != "ok"), coq_bool(time_ok || r.status != "ok")), replay);
+        if let Some(maxe) = inp.max_exports {
+            let n: usize = r.extra.iter().find(|l| l.starts_with("MX ")).and_then(|l| l.split(' ').nth(2).and_then(|x| x.parse().ok())).unwrap_or(0);
+            stats.inc("count:macho_exports_vs_trie_nodes");
+            if n > maxe { stats.inc("count:more_exports_than_trie_nodes"); }
+            shards.push(format!("KCount {} {}", coq_z(maxe as i128), coq_z(n as i128)),
+                format!("{{\"kind\":\"count\",\"class\":\"{}\",\"index\":{},\"label\":{},\"trie_nodes\":{},\"exports\":{},\"status\":\"{}\",\"data_hex\":\"{}\"}}", inp.class, idx, json_str(&inp.label), maxe, n, r.status, hex(&inp.data[..inp.data.len().min(400)])));
+        }
         for l in &r.extra {
             let f: Vec<&str> = l.split(' ').collect();
             if f[0] == "OV" && f.len() >= 6 {
